@@ -38,6 +38,7 @@ class SimFS(object):
         self.short_at = {}        # effect number -> max bytes for aio_write
         self.tmp_n = 0
         self.reads = 0
+        self.fd_pos = {}          # fd -> read offset for os.read()
 
     # ---------------------------------------------------------- bookkeeping
     def mkdir(self, path):
@@ -155,6 +156,27 @@ class SimFS(object):
 
     unlink = remove
 
+    def builtin_open(self, path, mode='r', *a, **kw):
+        """stands in for the builtin open() inside slimta.diskstorage"""
+        if self.killed:
+            raise Killed()
+        if 'b' not in mode:
+            raise ValueError('SimFS: text-mode open(%r) is not modelled' % path)
+        if 'w' in mode or ('a' in mode and path not in self.files) or \
+                'x' in mode:
+            if 'x' in mode and path in self.files:
+                raise FileExistsError(errno.EEXIST,
+                                      _os.strerror(errno.EEXIST), path)
+            n, err = self._effect('create', path)
+            if err:
+                raise OSError(err, _os.strerror(err))
+            self.files[path] = bytearray()
+            self._after(n)
+        elif path not in self.files:
+            raise FileNotFoundError(errno.ENOENT, _os.strerror(errno.ENOENT),
+                                    path)
+        return SimFileObj(self, self.files[path], mode, path=path)
+
     # ------------------------------------------------------------- aio shim
     def aio_write(self, fd, piece, offset, callback):
         piece = bytes(piece)
@@ -212,6 +234,96 @@ class SimFS(object):
         t.start(complete)
 
 
+class SimFileObj(object):
+    """what os.fdopen() / open() give: a user-space buffer in front of the
+    inode.  Buffered bytes reach the file system (one numbered 'write' effect)
+    on flush()/close() only, so a process death before that loses them - as
+    with a real io.BufferedWriter."""
+
+    def __init__(self, fs, inode, mode='rb', fd=None, path='?'):
+        self._fs = fs
+        self._inode = inode
+        self._fd = fd
+        self._path = path
+        self.mode = mode
+        self._pos = len(inode) if 'a' in mode else 0
+        self._wbuf = bytearray()
+        self.closed = False
+
+    def write(self, data):
+        if self.closed:
+            raise ValueError('I/O operation on closed file')
+        self._wbuf += bytes(data)
+        return len(data)
+
+    def flush(self):
+        if not self._wbuf:
+            return
+        fs = self._fs
+        n, err = fs._effect('write', self._path)
+        if err:
+            raise OSError(err, _os.strerror(err))
+        data = bytes(self._wbuf)
+        del self._wbuf[:]
+        buf = self._inode
+        if len(buf) < self._pos:
+            buf.extend(b'\0' * (self._pos - len(buf)))
+        buf[self._pos:self._pos + len(data)] = data
+        self._pos += len(data)
+        fs._after(n)
+
+    def read(self, size=-1):
+        self.flush()
+        if self._fs.killed:
+            raise Killed()
+        end = len(self._inode) if size is None or size < 0 else self._pos + size
+        data = bytes(self._inode[self._pos:end])
+        self._pos += len(data)
+        return data
+
+    def readline(self):
+        self.flush()
+        i = self._inode.find(b'\n', self._pos)
+        end = len(self._inode) if i < 0 else i + 1
+        data = bytes(self._inode[self._pos:end])
+        self._pos = end
+        return data
+
+    def readinto(self, b):
+        data = self.read(len(b))
+        b[:len(data)] = data
+        return len(data)
+
+    def seek(self, pos, whence=0):
+        self.flush()
+        self._pos = pos if whence == 0 else (
+            self._pos + pos if whence == 1 else len(self._inode) + pos)
+        return self._pos
+
+    def tell(self):
+        return self._pos + len(self._wbuf)
+
+    def fileno(self):
+        return self._fd
+
+    def close(self):
+        if self.closed:
+            return
+        try:
+            self.flush()
+        finally:
+            self.closed = True
+            if self._fd is not None:
+                self._fs.fds.pop(self._fd, None)
+
+    def __enter__(self):
+        return self
+
+    def __exit__(self, *exc):
+        self.close()
+        return False
+
+
 class OsShim(object):
     """what slimta.diskstorage sees as `os`"""
 
@@ -241,6 +353,51 @@ class OsShim(object):
     def strerror(self, e):
         return _os.strerror(e)
 
+    # (not used by the pinned code; present so that a rewrite of the disk
+    # layer on plain descriptors / file objects still runs on SimFS)
+    def fdopen(self, fd, mode='r', *a, **kw):
+        fs = self._fs
+        if fs.killed:
+            raise Killed()
+        if fd not in fs.fds:
+            raise OSError(errno.EBADF, _os.strerror(errno.EBADF))
+        return SimFileObj(fs, fs.fds[fd], mode, fd=fd)
+
+    def write(self, fd, data):
+        fs = self._fs
+        if fd not in fs.fds:
+            raise OSError(errno.EBADF, _os.strerror(errno.EBADF))
+        n, err = fs._effect('write', '?')
+        if err:
+            raise OSError(err, _os.strerror(err))
+        fs.fds[fd].extend(bytes(data))
+        fs._after(n)
+        return len(data)
+
+    def read(self, fd, size):
+        fs = self._fs
+        if fs.killed:
+            raise Killed()
+        if fd not in fs.fds:
+            raise OSError(errno.EBADF, _os.strerror(errno.EBADF))
+        pos = fs.fd_pos.get(fd, 0)
+        data = bytes(fs.fds[fd][pos:pos + size])
+        fs.fd_pos[fd] = pos + len(data)
+        return data
+
+    def fsync(self, fd):
+        if self._fs.killed:
+            raise Killed()
+
+    fdatasync = fsync
+
+    def __getattr__(self, name):
+        # constants (O_*, sep, ...) and pure helpers come from the real module
+        if name.startswith('O_') or name in ('sep', 'linesep', 'fspath',
+                                             'getpid', 'error', 'devnull'):
+            return getattr(_os, name)
+        raise AttributeError(name)
+
 
 class _PathShim(object):
     def __init__(self, fs):
@@ -248,6 +405,26 @@ class _PathShim(object):
 
     def join(self, *a):
         return posixpath.join(*a)
+
+    def basename(self, p):
+        return posixpath.basename(p)
+
+    def dirname(self, p):
+        return posixpath.dirname(p)
+
+    def splitext(self, p):
+        return posixpath.splitext(p)
+
+    def isfile(self, p):
+        return p in self._fs.files
+
+    def isdir(self, p):
+        return p in self._fs.dirs
+
+    def getsize(self, p):
+        if p not in self._fs.files:
+            raise FileNotFoundError(errno.ENOENT, _os.strerror(errno.ENOENT), p)
+        return len(self._fs.files[p])
 
     def lexists(self, p):
         return self._fs.lexists(p)
@@ -260,6 +437,7 @@ def install(fs):
     import slimta.diskstorage as ds
     ds.os = OsShim(fs)
     ds.mkstemp = fs.mkstemp
+    ds.open = fs.builtin_open     # (module global shadows the builtin)
     ds.aio_read = fs.aio_read
     ds.aio_write = fs.aio_write
     # AioFile._keep_awake spins at 1 kHz only to keep a *real* loop awake
